@@ -252,6 +252,10 @@ class UniformMPS(MPS):
         hdf5_saver.save(self._C, subpath + 'tensors_C')
         hdf5_saver.save(self.chinfo, subpath + 'chinfo')
         hdf5_saver.save(self.segment_boundaries, subpath + 'segment_boundaries')
+        hdf5_saver.save(self.unit_cell_width, subpath + 'unit_cell_width')
+        if self.diagonal_gauge:
+            hdf5_saver.save(self._S, subpath + 'singular_values')
+        h5gr.attrs['diagonal_gauge'] = self.diagonal_gauge
         h5gr.attrs['valid_umps'] = self.valid_umps
         h5gr.attrs['norm'] = self.norm
         h5gr.attrs['grouped'] = self.grouped
@@ -416,6 +420,13 @@ class UniformMPS(MPS):
         obj._transfermatrix_keep = hdf5_loader.get_attr(h5gr, 'transfermatrix_keep')
         obj.chinfo = hdf5_loader.load(subpath + 'chinfo')
         obj.dtype = np.result_type(*(B.dtype for B in obj._AR))
+        if 'unit_cell_width' in h5gr:
+            obj.unit_cell_width = hdf5_loader.load(subpath + 'unit_cell_width')
+        else:  # files written before unit_cell_width was saved: correct iff the lattice is a Chain
+            obj.unit_cell_width = len(obj.sites)
+        obj.diagonal_gauge = bool(h5gr.attrs.get('diagonal_gauge', False))
+        if obj.diagonal_gauge:
+            obj._S = hdf5_loader.load(subpath + 'singular_values')
         if 'segment_boundaries' in h5gr:
             obj.segment_boundaries = hdf5_loader.load(subpath + 'segment_boundaries')
         else:
